@@ -66,6 +66,15 @@ func (propC05) Gen(seed uint64, tier string, idx int) any {
 		p.Base = "still"
 		op := GenStillOp(r, 1, 40, false)
 		op.Kind = "enc"
+		if r.Pct(1) {
+			// a large picture of statistically different regions (many prefix-code groups,
+			// many token pages)
+			op.Img.Family, op.Img.Type = "regions", "nrgba"
+			op.Img.W, op.Img.H = 16*r.Range(8, 32), 16*r.Range(8, 32)
+			if op.Opt.Method > 4 {
+				op.Opt.Method = 4
+			}
+		}
 		p.Still = &op
 	case v < 62:
 		p.Base = "anim"
